@@ -566,6 +566,41 @@ theorem C16_debounce (ts : List Thr) (c : Cfg St Thr) (hr : Reach sys ({}, ts) c
     | _ => simp [Pc.finished] at hfin
   · exact execsOk_of _ _ 0 h.sorted (fun e he => ⟨(hb e he).1, (hb e he).2⟩)
 
+/-- **An execution is always the latest invocation made so far.**  Whatever step a debounced task takes, either nothing is
+executed, or the executed invocation is that task's and equals the number of calls made at that moment.  Consequence
+for a burst of calls that are all made before any of their tasks starts (the harness's `dburst`): only the burst's
+latest invocation can be executed — and by `C16_debounce` it is: exactly one `workerFunc` runs. -/
+theorem C16_debounce_exec_is_latest (s s' : St) (i : Nat) (h : s' ∈ callStep s i) :
+    s'.execs = s.execs ∨ (s'.execs = s.execs ++ [s.calls.length] ∧ i + 1 = s.calls.length) := by
+  unfold callStep at h
+  cases hc : s.calls[i]? with
+  | none => simp [hc] at h
+  | some pc =>
+    cases pc <;> simp only [hc] at h
+    · -- submitted
+      simp only [List.mem_singleton] at h
+      subst h
+      left
+      split <;> rfl
+    · -- wantLock
+      split at h
+      · simp at h
+      · simp only [List.mem_singleton] at h
+        subst h
+        left; rfl
+    · -- locked
+      simp only [List.mem_singleton] at h
+      subst h
+      by_cases hl : i + 1 = s.calls.length
+      · right
+        simp [hl, setPc]
+      · left
+        simp [hl, setPc]
+    · simp only [List.mem_singleton] at h; subst h; left; rfl
+    · simp only [List.mem_singleton] at h; subst h; left; rfl
+    · simp at h
+    · simp at h
+
 /-- Non-vacuity: two callers, three calls; the task of call 1 passes its first check before call 2 is made and is
 dropped at its second check; call 2 is executed, then call 3 is made and executed. -/
 theorem C16_debounce_example :
